@@ -1,0 +1,351 @@
+//go:build verif
+
+// Contracts for package codegen, read by /verif/govc. Nothing in this file is part of
+// a normal build: it is compiled only under the build tag "verif". Clause blocks
+// ("//@ ...") are kept apart from declarations by blank lines so that they are never
+// doc comments. Spec functions are written from the Intel SDM (Vol. 2, ch. 2 and
+// appendix B) and the property statements, not from the code under contract.
+
+package codegen
+
+import (
+	"github.com/HobbyOSs/gosk/pkg/cpu"
+	"github.com/HobbyOSs/gosk/pkg/ng_operand"
+)
+
+// ---------------------------------------------------------------------------
+// Register universe (the RegisterName alternatives of operand_grammar.peg)
+// ---------------------------------------------------------------------------
+
+// specReg32 is the SDM register number of a 32-bit general register, -1 otherwise.
+func specReg32(s string) int {
+	switch s {
+	case "EAX":
+		return 0
+	case "ECX":
+		return 1
+	case "EDX":
+		return 2
+	case "EBX":
+		return 3
+	case "ESP":
+		return 4
+	case "EBP":
+		return 5
+	case "ESI":
+		return 6
+	case "EDI":
+		return 7
+	}
+	return -1
+}
+
+// specReg16 is the SDM register number of a 16-bit general register, -1 otherwise.
+func specReg16(s string) int {
+	switch s {
+	case "AX":
+		return 0
+	case "CX":
+		return 1
+	case "DX":
+		return 2
+	case "BX":
+		return 3
+	case "SP":
+		return 4
+	case "BP":
+		return 5
+	case "SI":
+		return 6
+	case "DI":
+		return 7
+	}
+	return -1
+}
+
+// specReg8 is the SDM register number of an 8-bit general register, -1 otherwise.
+func specReg8(s string) int {
+	switch s {
+	case "AL":
+		return 0
+	case "CL":
+		return 1
+	case "DL":
+		return 2
+	case "BL":
+		return 3
+	case "AH":
+		return 4
+	case "CH":
+		return 5
+	case "DH":
+		return 6
+	case "BH":
+		return 7
+	}
+	return -1
+}
+
+// specSreg is the SDM segment register number, -1 otherwise.
+func specSreg(s string) int {
+	switch s {
+	case "ES":
+		return 0
+	case "CS":
+		return 1
+	case "SS":
+		return 2
+	case "DS":
+		return 3
+	case "FS":
+		return 4
+	case "GS":
+		return 5
+	}
+	return -1
+}
+
+// specCreg is the control register number for CR0, CR2, CR3, CR4, -1 otherwise.
+func specCreg(s string) int {
+	switch s {
+	case "CR0":
+		return 0
+	case "CR2":
+		return 2
+	case "CR3":
+		return 3
+	case "CR4":
+		return 4
+	}
+	return -1
+}
+
+// specOtherRegName: the remaining RegisterName alternatives of the operand grammar
+// (64-bit, MMX/XMM/YMM, CR1/5-8, DRn, TRn). None of them may appear in a 16/32-bit
+// effective address or ModR/M field of the instructions gosk implements.
+func specOtherRegName(s string) bool {
+	switch s {
+	case "RAX", "RBX", "RCX", "RDX", "RSI", "RDI", "RSP", "RBP",
+		"R8", "R9", "R10", "R11", "R12", "R13", "R14", "R15",
+		"MM0", "MM1", "MM2", "MM3", "MM4", "MM5", "MM6", "MM7",
+		"XMM0", "XMM1", "XMM2", "XMM3", "XMM4", "XMM5", "XMM6", "XMM7",
+		"XMM8", "XMM9", "XMM10", "XMM11", "XMM12", "XMM13", "XMM14", "XMM15",
+		"YMM0", "YMM1", "YMM2", "YMM3", "YMM4", "YMM5", "YMM6", "YMM7",
+		"YMM8", "YMM9", "YMM10", "YMM11", "YMM12", "YMM13", "YMM14", "YMM15",
+		"CR1", "CR5", "CR6", "CR7", "CR8",
+		"DR0", "DR1", "DR2", "DR3", "DR4", "DR5", "DR6", "DR7",
+		"TR0", "TR1", "TR2", "TR3", "TR4", "TR5", "TR6", "TR7":
+		return true
+	}
+	return false
+}
+
+// specIsRegName: s is one of the RegisterName alternatives of the operand grammar.
+func specIsRegName(s string) bool {
+	return specReg32(s) >= 0 || specReg16(s) >= 0 || specReg8(s) >= 0 || specSreg(s) >= 0 || specCreg(s) >= 0 || specOtherRegName(s)
+}
+
+// ---------------------------------------------------------------------------
+// Effective-address decoder (SDM Vol. 2 Tables 2-1, 2-2, 2-3), written as a decoder.
+// ---------------------------------------------------------------------------
+
+// specValidMem: the shapes the operand parser can produce for a memory operand.
+func specValidMem(mem *ng_operand.MemoryInfo) bool {
+	return (mem.BaseReg == "" || specIsRegName(mem.BaseReg)) &&
+		(mem.IndexReg == "" || specIsRegName(mem.IndexReg)) &&
+		(mem.Scale == 0 || mem.Scale == 1 || mem.Scale == 2 || mem.Scale == 4 || mem.Scale == 8)
+}
+
+// specAddrSize is the address size implied by the registers of a memory operand:
+// 32 if it uses 32-bit registers only, 16 if it uses 16-bit registers only, the mode's
+// size for an absolute address, and 0 (not encodable) for anything else.
+func specAddrSize(mem *ng_operand.MemoryInfo, mode int) int {
+	b32, i32 := specReg32(mem.BaseReg) >= 0, specReg32(mem.IndexReg) >= 0
+	b16, i16 := specReg16(mem.BaseReg) >= 0, specReg16(mem.IndexReg) >= 0
+	bn, in := mem.BaseReg == "", mem.IndexReg == ""
+	switch {
+	case bn && in:
+		return mode
+	case (b32 || bn) && (i32 || in):
+		return 32
+	case (b16 || bn) && (i16 || in):
+		return 16
+	}
+	return 0
+}
+
+// specWrittenCoef is the multiplicity of register r in the effective address as
+// written: 1 for the base, the scale (1 if none is written) for the index.
+func specWrittenCoef(mem *ng_operand.MemoryInfo, r string) int {
+	c := 0
+	if mem.BaseReg == r {
+		c += 1
+	}
+	if mem.IndexReg == r {
+		if mem.Scale == 0 {
+			c += 1
+		} else {
+			c += mem.Scale
+		}
+	}
+	return c
+}
+
+// specDecoded16Coef: Table 2-1. Multiplicity of the 16-bit register numbered n
+// (BX=3, BP=5, SI=6, DI=7) in the address denoted by mod/rm.
+func specDecoded16Coef(modrm byte, n int) int {
+	mod, rm := modrm>>6, modrm&7
+	c := 0
+	// base
+	switch rm {
+	case 0, 1, 7:
+		if n == 3 {
+			c++
+		}
+	case 2, 3:
+		if n == 5 {
+			c++
+		}
+	case 6:
+		if mod != 0 && n == 5 {
+			c++
+		}
+	}
+	// index
+	switch rm {
+	case 0, 2, 4:
+		if n == 6 {
+			c++
+		}
+	case 1, 3, 5:
+		if n == 7 {
+			c++
+		}
+	}
+	return c
+}
+
+// specHasSIB: a SIB byte follows ModR/M iff 32-bit addressing, mod != 11, rm == 100.
+func specHasSIB(asz int, modrm byte) bool {
+	return asz == 32 && modrm>>6 != 3 && modrm&7 == 4
+}
+
+// specDecoded32Coef: Tables 2-2 and 2-3. Multiplicity of 32-bit register n.
+func specDecoded32Coef(modrm, sib byte, n int) int {
+	mod, rm := modrm>>6, modrm&7
+	c := 0
+	if rm != 4 {
+		if !(mod == 0 && rm == 5) && int(rm) == n {
+			c++
+		}
+		return c
+	}
+	base, index, ss := sib&7, (sib>>3)&7, sib>>6
+	if !(mod == 0 && base == 5) && int(base) == n {
+		c++
+	}
+	if index != 4 && int(index) == n {
+		c += 1 << ss
+	}
+	return c
+}
+
+// specDispLen: number of displacement bytes that follow ModR/M (and SIB).
+func specDispLen(asz int, modrm, sib byte) int {
+	mod, rm := modrm>>6, modrm&7
+	if asz == 16 {
+		switch {
+		case mod == 1:
+			return 1
+		case mod == 2:
+			return 2
+		case mod == 0 && rm == 6:
+			return 2
+		}
+		return 0
+	}
+	switch {
+	case mod == 1:
+		return 1
+	case mod == 2:
+		return 4
+	case mod == 0 && rm == 5:
+		return 4
+	case mod == 0 && rm == 4 && sib&7 == 5:
+		return 4
+	}
+	return 0
+}
+
+// specDispValue: the displacement denoted by n little-endian bytes; disp8 is
+// sign-extended, disp16/32 are taken modulo the address size by the caller.
+func specDispValue(d []byte, n int) int64 {
+	switch n {
+	case 1:
+		return int64(int8(d[0]))
+	case 2:
+		return int64(uint16(d[0]) | uint16(d[1])<<8)
+	case 4:
+		return int64(uint32(d[0]) | uint32(d[1])<<8 | uint32(d[2])<<16 | uint32(d[3])<<24)
+	}
+	return 0
+}
+
+// specEAOK: (modrm, sib, disp) decode, at the address size implied by the operand,
+// to exactly the effective address written in mem.
+func specEAOK(mem *ng_operand.MemoryInfo, mode int, modrm, sib byte, disp []byte) bool {
+	asz := specAddrSize(mem, mode)
+	if asz == 0 || modrm>>6 == 3 {
+		return false
+	}
+	n := specDispLen(asz, modrm, sib)
+	if len(disp) != n {
+		return false
+	}
+	dv := specDispValue(disp, n)
+	if asz == 16 {
+		if mem.Scale > 1 && mem.IndexReg != "" {
+			return false // no scaling in 16-bit addressing
+		}
+		return uint16(dv) == uint16(mem.Displacement) &&
+			specDecoded16Coef(modrm, 0) == specWrittenCoef(mem, "AX") &&
+			specDecoded16Coef(modrm, 1) == specWrittenCoef(mem, "CX") &&
+			specDecoded16Coef(modrm, 2) == specWrittenCoef(mem, "DX") &&
+			specDecoded16Coef(modrm, 3) == specWrittenCoef(mem, "BX") &&
+			specDecoded16Coef(modrm, 4) == specWrittenCoef(mem, "SP") &&
+			specDecoded16Coef(modrm, 5) == specWrittenCoef(mem, "BP") &&
+			specDecoded16Coef(modrm, 6) == specWrittenCoef(mem, "SI") &&
+			specDecoded16Coef(modrm, 7) == specWrittenCoef(mem, "DI")
+	}
+	if !specHasSIB(32, modrm) && sib != 0 {
+		return false // a SIB value reported although the encoding has no SIB byte
+	}
+	return uint32(dv) == uint32(mem.Displacement) &&
+		specDecoded32Coef(modrm, sib, 0) == specWrittenCoef(mem, "EAX") &&
+		specDecoded32Coef(modrm, sib, 1) == specWrittenCoef(mem, "ECX") &&
+		specDecoded32Coef(modrm, sib, 2) == specWrittenCoef(mem, "EDX") &&
+		specDecoded32Coef(modrm, sib, 3) == specWrittenCoef(mem, "EBX") &&
+		specDecoded32Coef(modrm, sib, 4) == specWrittenCoef(mem, "ESP") &&
+		specDecoded32Coef(modrm, sib, 5) == specWrittenCoef(mem, "EBP") &&
+		specDecoded32Coef(modrm, sib, 6) == specWrittenCoef(mem, "ESI") &&
+		specDecoded32Coef(modrm, sib, 7) == specWrittenCoef(mem, "EDI")
+}
+
+// specMode is the numeric value of a bit mode.
+func specMode(m cpu.BitMode) int { return int(m) }
+
+//@ func getOffsetSize
+//@ props C04 C03
+//@ ensures[one]  (result0 == 1) == (-128 <= imm && imm <= 127)
+//@ ensures[two]  (result0 == 2) == (!(-128 <= imm && imm <= 127) && -32768 <= imm && imm <= 32767)
+//@ ensures[dom]  result0 == 1 || result0 == 2 || result0 == 4
+
+//@ func calculateModRM
+//@ props C02 C01
+//@ requires mem != nil && specValidMem(mem)
+//@ requires bitMode == cpu.MODE_16BIT || bitMode == cpu.MODE_32BIT
+//@ requires regBits&0xC7 == 0
+//@ ensures[reg] err == nil ==> modrmByte&0x38 == regBits
+//@ ensures[ea]  err == nil ==> specEAOK(mem, specMode(bitMode), modrmByte, sibByte, dispBytes)
+
+
